@@ -259,6 +259,73 @@ def gen_cases(rng, tier):
         sizes = [[rng.choice(alpha + [0, 1, 84, 91]) for _ in range(rng.randrange(0, 5))] for _ in range(nb)]
         files = rng.choice(list(starts.values())) if rng.random() < 0.4 else []
         hist("history-random", files, sizes, mx=rng.choice([100, 100, 120, 300]))
+    # --- block CONTENT that looks like the container's own structure: blocks that are / start with / contain / end with
+    #     magic + length sequences (an exact self-describing record, length off by 1 / 8, big-endian length, another
+    #     network's magic, the magic alone, two records back to back, an empty record, the tail of an existing file),
+    #     at the size boundaries (fits exactly / by one byte / not at all) and across restarts.  Every block is opaque
+    #     data: it is stored as magic | len | block whatever it contains.
+    OTHER = MAINNET
+
+    def shaped(kind, size, magic=REGTEST, fill=0x5a):
+        body = lambda n: bytes([fill]) * max(n, 0)
+        le = lambda v: struct.pack("<I", v % 2 ** 32)
+        if kind == "self-record":
+            return (magic + le(size - 8) + body(size - 8))[:size]
+        if kind in ("len-1", "len+1", "len-8", "len+8"):
+            return (magic + le(size - 8 + int(kind[3:])) + body(size - 8))[:size]
+        if kind == "be-length":
+            return (magic + struct.pack(">I", max(size - 8, 0)) + body(size - 8))[:size]
+        if kind == "other-magic":
+            return (OTHER + le(size - 8) + body(size - 8))[:size]
+        if kind == "magic-only":
+            return (magic + body(size - 4))[:size]
+        if kind == "two-records":
+            a = max((size - 16) // 2, 0)
+            return (magic + le(a) + body(a) + magic + le(size - 16 - a) + body(size - 16 - a))[:size]
+        if kind == "record-of-record":
+            return (magic + le(size - 8) + magic + le(size - 16) + body(size - 16))[:size]
+        if kind == "ends-with-header":
+            return (body(size - 8) + magic + le(0))[-size:] if size else b""
+        if kind == "contains-record":
+            return (body(3) + magic + le(4) + body(4) + body(size))[:size]
+        if kind == "length-then-magic":
+            return (le(size - 8) + magic + body(size - 8))[:size]
+        raise ValueError(kind)
+
+    kinds = ["self-record", "len-1", "len+1", "len-8", "len+8", "be-length", "other-magic", "magic-only", "two-records",
+             "record-of-record", "ends-with-header", "contains-record", "length-then-magic"]
+
+    def histb(cls, files, batches, mx=MAX, magic=REGTEST):
+        out.append(case(cls, "history", mx, magic, sorted(files), batches))
+
+    plain = lambda n, t: bytes([t]) * n
+    for kind in kinds:
+        for size in (8, 17, 42, 43, 50, 92, 93, 100):
+            k = shaped(kind, size)
+            if T or size in (8, 42, 92) or rng.random() < 0.35:
+                histb("block-looks-like-record-" + kind, [], [[k]])
+                histb("block-looks-like-record-" + kind, [], [[plain(42, 1), k, plain(17, 2)]])
+                histb("block-looks-like-record-" + kind, [], [[k], [k, plain(42, 3)], [plain(34, 4)]])
+            if T or rng.random() < 0.3:
+                histb("block-looks-like-record-" + kind, starts["one-partial"], [[k, k], [plain(17, 5)]])
+                histb("block-looks-like-record-" + kind, [], [[k]], magic=MAINNET)      # the same bytes under another magic
+    # a block that is byte for byte an earlier record / the tail of an existing file / a whole existing file
+    r1 = spec_record(REGTEST, plain(17, 7))
+    for blkb in (r1, r1 + r1, r1[4:], r1[:-1], r1 + b"\x00", spec_record(REGTEST, b""), spec_record(REGTEST, r1)):
+        histb("block-equals-earlier-record", [], [[plain(17, 7), blkb], [blkb]])
+        histb("block-equals-earlier-record", [(0, r1)], [[blkb], [plain(17, 7), blkb]])
+        histb("block-equals-earlier-record", [(0, b"\x11" * 30 + r1)], [[(b"\x11" * 30 + r1)[-len(blkb):] if blkb else b"", blkb]])
+    for _ in range(400 if T else 60):
+        nb = rng.randrange(1, 4)
+        bs = [[shaped(rng.choice(kinds), rng.choice([8, 9, 16, 17, 42, 43, 84, 92])) if rng.random() < 0.6
+               else plain(rng.choice(alpha), 9) for _ in range(rng.randrange(1, 4))] for _ in range(nb)]
+        histb("block-looks-like-record-random", rng.choice([[], starts["one-partial"], starts["one-short-by-one"]]), bs,
+              magic=rng.choice([REGTEST, REGTEST, MAINNET]))
+    for kind in ("self-record", "two-records", "len-8"):      # and with a crash at every operation
+        bs = [[shaped(kind, 42), plain(17, 1)], [shaped(kind, 92)]]
+        for k in range(n_prims(bs) + 1):
+            out.append(case("block-looks-like-record-crash", "history_crash", MAX, REGTEST, [], bs, k))
+
     # --- data directory NAMES and path styles: the result must not depend on what the directory is called or how its
     #     path is written (glob / regex / format metacharacters, spaces, unicode, a trailing dot, a block-file name as a
     #     directory component, nesting; absolute / relative / trailing slash / via ".."); multi-call histories with a
